@@ -10,6 +10,7 @@ CQ == INSTANCE CliQueue WITH NFiles <- 1, Consumers <- {1}, Q <- 1, FinishTokens
 AC == INSTANCE AhoCorasick WITH StrictBacktrack <- FALSE, NoFailureLists <- FALSE, BlindOptimise <- FALSE, Alphabet <- {1}, MaxLen <- 1, MaxAtoms <- 1,
                              MaxInput <- 1, atomsV <- << >>, bufV <- << >>
 AL == INSTANCE ApiLifecycle WITH comp <- 0, rules <- 0, scanner <- 0, armed <- 0, history <- 0
+CH == INSTANCE Chain
 HR == INSTANCE HashRange WITH KeyWithAlg <- TRUE, KeyIsArgs <- TRUE, cache <- 0, last <- 0, ncalls <- 0
 
 VARIABLES l, bad, known
@@ -21,9 +22,39 @@ N == Len(TraceLog)
 \* in the library is not an alarm. (ReVMMC: the model and the semantics agree on every expression without the D40 signature.)
 MatchesAsBuilt(c) == ("vm" \in DOMAIN c /\ c.vm /\ Supported(c.ast)) => c.obs = Matches(c.ast, c.buf, [nocase |-> c.nocase, dotall |-> c.dotall, wide |-> FALSE])
 
+\* ---- chained strings (hook H7): c.chain = the recorded runs of the chain confirmation algorithm (Chain.tla), one per chain
+\* piece p of the expression: the elements of the top-level concatenation between the chaining jumps
+PieceAst(c, p) ==
+  LET gaps == ChainGaps(c.ast, c.thresh)
+      idx == {k \in 1..Len(c.ast.xs) : k \notin gaps /\ Cardinality({g \in gaps : g < k}) = p - 1}
+      lo == CHOOSE k \in idx : \A j \in idx : k <= j
+  IN [t |-> "cat", xs |-> SubSeq(c.ast.xs, lo, lo + Cardinality(idx) - 1)]
+PieceLens(c, p, o) == UNION { {e - o : e \in Ends(PieceAst(c, p), c.buf, o, fl)} : fl \in Variants(c) }
+\* the chain the engine built is the chain the expression calls for: same number of pieces, same jumps
+ChainShapeOK(c, ch) ==
+  LET gaps == ChainGaps(c.ast, c.thresh)
+      gs == [i \in 1..Cardinality(gaps) |-> CHOOSE g \in gaps : Cardinality({h \in gaps : h < g}) = i - 1]
+  IN /\ c.ast.t = "cat" /\ ch.n = Cardinality(gaps) + 1 /\ Len(ch.gaps) = ch.n - 1
+     /\ \A i \in 1..Len(ch.gaps) : ch.gaps[i][1] = c.ast.xs[gs[i]].lo /\ ch.gaps[i][2] = c.ast.xs[gs[i]].hi
+\* every match handed to the algorithm is a match of that piece in the data ...
+CallbacksSound(c, ch) == \A k \in 1..Len(ch.cbs) : ch.cbs[k].len \in PieceLens(c, ch.cbs[k].p, ch.cbs[k].off)
+\* ... and a piece of fixed length is handed over at every offset where it occurs (pieces of variable length: finding D13)
+CallbacksCompleteFixed(c, ch) ==
+  \A p \in 1..ch.n : FixedLen(PieceAst(c, p)) >= 0 =>
+     \A o \in 0..(Len(c.buf) - 1) : PieceLens(c, p, o) # {} => \E k \in 1..Len(ch.cbs) : ch.cbs[k].p = p /\ ch.cbs[k].off = o
+HasChain(c) == "chain" \in DOMAIN c /\ Len(c.chain) > 0
+ChainFinalIsObs(c, ch) == LET f == CH!FinalConf(ch) IN Len(f) = Len(c.obs) /\ \A j \in 1..Len(f) : f[j].off = c.obs[j][1] /\ f[j].len = c.obs[j][2]
+ChainsStrictOK(c) == HasChain(c) => \A i \in 1..Len(c.chain) :
+   ChainShapeOK(c, c.chain[i]) /\ CallbacksSound(c, c.chain[i]) /\ CallbacksCompleteFixed(c, c.chain[i]) /\ ChainFinalIsObs(c, c.chain[i]) /\ CH!ChainIdeal(c.chain[i])
+\* as recorded for D12/D13: either ideal for the callbacks that occurred, or the callbacks came in an order the algorithm does not
+\* expect and the lists evolved EXACTLY as the model of the algorithm as built computes them
+ChainsKnownOK(c) == HasChain(c) => \A i \in 1..Len(c.chain) :
+   /\ ChainShapeOK(c, c.chain[i]) /\ CallbacksSound(c, c.chain[i]) /\ CallbacksCompleteFixed(c, c.chain[i]) /\ ChainFinalIsObs(c, c.chain[i])
+   /\ (CH!ChainIdeal(c.chain[i]) \/ CH!ChainKnownD12(c.chain[i]))
+
 CaseOK(c) ==
   CASE c.kind = "text" -> ObsOK(c.pat, c.mods, c.buf, c.obs)
-    [] c.kind = "re"   -> StringObsOK(c)
+    [] c.kind = "re"   -> StringObsOK(c) /\ ChainsStrictOK(c)
     [] c.kind = "matches" -> c.obs = MatchesOp(c.ast, c.buf, [nocase |-> c.nocase, dotall |-> c.dotall, wide |-> FALSE])
     [] c.kind = "rescanerr" -> FALSE      \* a scan of a small buffer with a small expression must end with a verdict, not an error
     [] c.kind = "cond" -> c.obs = Verdict(c.ast, c.env)
@@ -47,7 +78,7 @@ CaseOK(c) ==
 
 \* disagreements that carry the signature of a recorded known finding (decided from the case, spec side)
 KnownCase(c) ==
-  CASE c.kind = "re" -> IF StringObsOK_D14(c) THEN "D14" ELSE IF StringObsOK_D12(c) THEN "D12"
+  CASE c.kind = "re" -> IF StringObsOK_D14(c) THEN "D14" ELSE IF StringObsOK_D12(c) /\ ChainsKnownOK(c) THEN "D12"
                         ELSE IF StringObsOK_D17(c) THEN "D17" ELSE IF StringObsOK_D40(c) THEN "D40" ELSE "none"
     [] c.kind = "rescanerr" -> IF HasNullableCounted(c.ast) THEN "D40" ELSE "none"
     [] c.kind = "matches" -> IF MatchesOK_D40(c) /\ MatchesAsBuilt(c) THEN "D40" ELSE "none"
